@@ -12,6 +12,7 @@ import (
 	"sort"
 	"strconv"
 	"strings"
+	"sync"
 	"time"
 )
 
@@ -689,32 +690,65 @@ func RunSelftest(o *Options) int {
 		runs = 32
 	}
 	self, _ := os.Executable()
-	var ref string
-	for rep, procs := range []string{"1", "4", "16", "1", "16", "4"} {
-		cmd := exec.Command(self, "-test.run=^TestSim$", "-test.timeout=0", "-prop", c.ID, "-tier", o.Tier, "-seed", strconv.FormatUint(o.Seed, 10),
-			"-worker", "-from", "0", "-to", strconv.Itoa(runs), "-verifdir", filepath.Join(os.TempDir(), "polysim-selftest"))
-		cmd.Env = append(os.Environ(), "GOMAXPROCS="+procs, "POLYSIM_CHILD=1")
-		out, err := cmd.Output()
-		if err != nil {
-			fmt.Println("selftest worker failed:", err)
+	// POLYSIM_SELFTEST_REPS=<n>: number of same-seed processes (default 6), cycling GOMAXPROCS 1/4/16;
+	// up to 8 of them run concurrently (which also varies the load each of them sees).
+	reps := 6
+	if v, err := strconv.Atoi(os.Getenv("POLYSIM_SELFTEST_REPS")); err == nil && v > 0 {
+		reps = v
+	}
+	type res struct {
+		rep    int
+		procs  string
+		digest string
+		runs   int
+		err    error
+	}
+	results := make([]res, reps)
+	sem := make(chan struct{}, 8)
+	var wg sync.WaitGroup
+	for rep := 0; rep < reps; rep++ {
+		procs := []string{"1", "4", "16", "1", "16", "4"}[rep%6]
+		wg.Add(1)
+		sem <- struct{}{}
+		go func(rep int, procs string) {
+			defer wg.Done()
+			defer func() { <-sem }()
+			cmd := exec.Command(self, "-test.run=^TestSim$", "-test.timeout=0", "-prop", c.ID, "-tier", o.Tier, "-seed", strconv.FormatUint(o.Seed, 10),
+				"-worker", "-from", "0", "-to", strconv.Itoa(runs), "-verifdir", filepath.Join(os.TempDir(), "polysim-selftest"))
+			cmd.Env = append(os.Environ(), "GOMAXPROCS="+procs, "POLYSIM_CHILD=1")
+			out, err := cmd.Output()
+			results[rep] = res{rep: rep, procs: procs, err: err}
+			if err != nil {
+				return
+			}
+			i := bytes.Index(out, []byte("POLYSIM-RESULT "))
+			if i < 0 {
+				results[rep].err = fmt.Errorf("no result line")
+				return
+			}
+			var r workerResult
+			line := out[i+len("POLYSIM-RESULT "):]
+			if j := bytes.IndexByte(line, '\n'); j >= 0 {
+				line = line[:j]
+			}
+			if e := json.Unmarshal(line, &r); e != nil {
+				results[rep].err = e
+				return
+			}
+			results[rep].digest, results[rep].runs = r.TraceDigest, r.Runs
+		}(rep, procs)
+	}
+	wg.Wait()
+	ref := ""
+	for _, r := range results {
+		if r.err != nil {
+			fmt.Println("selftest worker failed:", r.err)
 			return 2
 		}
-		i := bytes.Index(out, []byte("POLYSIM-RESULT "))
-		if i < 0 {
-			return 2
-		}
-		var r workerResult
-		line := out[i+len("POLYSIM-RESULT "):]
-		if j := bytes.IndexByte(line, '\n'); j >= 0 {
-			line = line[:j]
-		}
-		if json.Unmarshal(line, &r) != nil {
-			return 2
-		}
-		fmt.Printf("selftest %s rep=%d GOMAXPROCS=%s runs=%d digest=%s\n", c.ID, rep, procs, r.Runs, r.TraceDigest[:16])
+		fmt.Printf("selftest %s rep=%d GOMAXPROCS=%s runs=%d digest=%s\n", c.ID, r.rep, r.procs, r.runs, r.digest[:16])
 		if ref == "" {
-			ref = r.TraceDigest
-		} else if ref != r.TraceDigest {
+			ref = r.digest
+		} else if ref != r.digest {
 			fmt.Println("selftest: NONDETERMINISM detected")
 			return 1
 		}
